@@ -42,15 +42,26 @@ from cnl2asp.specification.signaturemanager import SignatureManager  # noqa: E40
 UUID_RE = re.compile(r'x_[0-9a-f]{8}_[0-9a-f]{4}_[0-9a-f]{4}_[0-9a-f]{4}_[0-9a-f]{12}')
 
 
+# variables invented for attributes of an auxiliary x_<uuid> predicate: the uuid, vowels stripped and upper-cased
+UUID_VAR_RE = re.compile(r'X_[0-9BCDF]{1,8}_[0-9BCDF]{0,4}_[0-9BCDF]{0,4}_[0-9BCDF]{0,4}_[0-9BCDF]{1,12}')
+
+
 def norm_uuid(text):
     seen = {}
+    seenv = {}
 
     def rep(m):
         k = m.group(0)
         if k not in seen:
             seen[k] = 'x_%d' % len(seen)
         return seen[k]
-    return UUID_RE.sub(rep, text)
+
+    def repv(m):
+        k = m.group(0)
+        if k not in seenv:
+            seenv[k] = 'X_%d' % len(seenv)
+        return seenv[k]
+    return UUID_VAR_RE.sub(repv, UUID_RE.sub(rep, text))
 
 
 def compile_text(text, auto_link=True, with_functions=False):
